@@ -137,9 +137,21 @@ def _work(args):
     return out, r, line
 
 
+# words that are identifiers to the strict dialects but that a laxer reader could take for a number, a time or a
+# duration (ISO 8601 basic forms, float() words): as a parameter name, as a block name and as a string value, in
+# every run — not left to chance
+NAMELIKE = ["T12", "T1200", "T120000", "T12Z", "W01", "Z", "inf", "nan", "Infinity", "NaN4", "E5", "e5", "x1e5",
+            "P1D", "PT1H", "R5", "J2000", "D2001", "T24"]
+
+
 def generate(ctx, n):
     rng = ctx.rng
     cases = []
+    for enc in encio.ENCODERS:
+        for w in NAMELIKE:
+            for m in (PVLModule([(w, 1)]), PVLModule([("A", 1), (w, PVLObject([("N", 1)]))]), PVLModule([("A", w)])):
+                if representable(enc, m):
+                    cases.append((enc, {}, m))
     for enc in encio.ENCODERS:
         og = gen.ObjGen(rng, enc)
         tries = 0
